@@ -139,6 +139,7 @@ class Engine(ExprMixin, CallMixin, ContractMixin, BuiltinMixin, StmtMixin, LoopM
         self.paths = 0
         self.dropped = None
         self.at_call_seen = set()
+        self.loop_specs_used = set()
         self.covers = {}  # cover points reached (vacuity guard)
         self.feas_checks = 0
         self.param_syms = {}  # parameter name -> SV at entry (for countermodel concretisation)
@@ -286,6 +287,9 @@ class Engine(ExprMixin, CallMixin, ContractMixin, BuiltinMixin, StmtMixin, LoopM
         for s2, oc in outcomes:
             self.paths += 1
             self.finish_path(s2, oc, fs, fr, fnode, entry)
+        for key, ls in fs.loops.items():
+            if id(ls) not in self.loop_specs_used:
+                self.note_undecided("loop-spec", f"loop contract {key!r} matches no loop reached in {target}")
         for key in fs.at_call:
             if key not in self.at_call_seen:
                 self.note_undecided("at-call", f"no call `{key}` was reached in {target}")
@@ -356,7 +360,8 @@ class Engine(ExprMixin, CallMixin, ContractMixin, BuiltinMixin, StmtMixin, LoopM
         app = f(*[a.z for a in cargs])
         key = ("unfold", sf.name, tuple(str(sym.lsimp(a.z)) for a in cargs))
         depth = st.ghost.get("unfold_depth", 0)
-        if not sf.abstract and key not in st.ghost.get("unfolded", ()) and depth < sf.fuel:
+        opaque = self.root_spec is not None and sf.name in getattr(self.root_spec, "opaque", ())
+        if not sf.abstract and not opaque and key not in st.ghost.get("unfolded", ()) and depth < sf.fuel:
             st.ghost["unfolded"] = set(st.ghost.get("unfolded", ())) | {key}
             from .calls import _spec_body_expr
 
